@@ -251,6 +251,17 @@ theorem coeffAccess_reads (width : Nat) (dims : List Nat) (k dof : Nat)
 example : readOnly "w" (.addAssign (.idx "A" .scalar [.litI 0]) (.idx "w" .scalar [.litI 1])) = true ∧
     readsE "w" [] [] (.idx "w" .scalar [.litI 1]) = [some 1] := by decide
 
+/-- the kernel `A[0] += w[1]` and a shape-domain state with `A[1]`, `w[2]` -/
+def demoK : Stmt := .addAssign (.idx "A" .scalar [.litI 0]) (.idx "w" .scalar [.litI 1])
+def demoU : St U :=
+  { sa := [("A", { dims := [1], data := #[⟨⟩] }), ("w", { dims := [2], data := #[⟨⟩, ⟨⟩] })] }
+
+/-- non-vacuity of the hypotheses of `disabled_irrelevant` / `reads_in_blocks`: two coefficients of dimension 1;
+with coefficient 0 disabled the obligation holds (the kernel reads `w[1]` only), with coefficient 1 disabled it fails -/
+example : readOnly "w" demoK = true ∧ readsAvoidB uExtra demoK demoU 1 [1, 1] [false, true] = true
+    ∧ readsAvoidB uExtra demoK demoU 1 [1, 1] [true, false] = false
+    ∧ readsInBlocksB uExtra demoK demoU 1 [1, 1] = true := by decide
+
 /-- non-vacuity of the flag obligation: three coefficients of dimensions 2, 3, 1 (interior facet: width 2),
 the middle one disabled: its block is `[4, 10)`; reads at 1 and 10 avoid it, a read at 7 does not, and the
 reads are attributed to coefficients 0 and 2 -/
